@@ -45,6 +45,14 @@ func c20(r *Report) propMeta {
 	r.Gate("must-be-current-feed", ipv, RetNotEff(0, "const:false"), []Cond{{Op: "BOOL", A: []string{"^extract", "lookup", "field:Signaller.signalIDToFeed", "field:SignalPrice.SignalID"}, Want: true, Desc: "signal is in the daemon's copy of the current feeds"}}, GateOpts{MinSites: 2})
 	r.Exists("existing-price-goes-through-timing-rule", ipv, RetValEff(0, "^call:Signaller.shouldUpdatePrice"), 1)
 
+	// what is handed to the submitter goroutine is a fresh slice (the next round must not rewrite an in-flight submission),
+	// and the daemon's copy of the chain's current feeds / own prices is replaced as a whole on every refresh
+	r.RetFresh("hand-off-fresh", fp, 0)
+	r.NoMapPatch("feeds-view-replaced", "grogu/signaller", "Signaller.signalIDToFeed", 1, sg+"updateFeedMap", "grogu/signaller.New")
+	r.NoMapPatch("prices-view-replaced", "grogu/signaller", "Signaller.signalIDToValidatorPrice", 1, sg+"updateValidatorPriceMap", "grogu/signaller.New")
+	r.Exists("feeds-view-from-the-query", sg+"updateFeedMap", StoreEff("Signaller.signalIDToFeed", "^call:signaller.sliceToMap", "field:CurrentFeedWithDeviations.Feeds", "call:FeedQuerier.QueryCurrentFeeds"), 1)
+	r.RetFresh("slice-to-map-fresh", "grogu/signaller.sliceToMap", 0)
+
 	r.Rule("C20.R4", "sibling agreement: cooldown on chain and in the daemon")
 	ss := fMS + "SubmitSignalPrices"
 	r.Gate("chain-cooldown", ss, CallEff("types.NewValidatorPrice"), []Cond{
